@@ -126,9 +126,9 @@ def make_grammar(sw, control_names, utf8=False):
         # restricted reading (D_lo): an id does not begin with "$"; type names may carry one
         # "$" and group names "$$" in front (socket/plug), nothing else may.
         EALPHA0 = A(ALPHA, L("@"), L("_"))
-        # (maximal munch; and a name is not directly followed by a double quote, which the
-        # crate's h"…" leniency would swallow)
-        g["id0"] = C(EALPHA0, idtail, NotAhead(A(C(Opt(A(L("-"), L("."))), A(EALPHA, DIGIT)), L('"')))) if on("F_maximal_munch") else C(EALPHA0, idtail)
+        # (maximal munch; and a name is not directly followed by a quote: the crate reads
+        # h"…", h'…', b64'…' as one byte-string token)
+        g["id0"] = C(EALPHA0, idtail, NotAhead(A(C(Opt(A(L("-"), L("."))), A(EALPHA, DIGIT)), L('"'), L("'")))) if on("F_maximal_munch") else C(EALPHA0, idtail)
         g["id"] = N("id0")
         g["typename"] = C(Opt(L("$")), N("id0"))
         g["groupname"] = C(Opt(L("$$")), N("id0"))
